@@ -350,6 +350,9 @@ def reuse_cases(rng, n, comps=gen.IDENT_ADVERSARIAL):
             i = rng.choice(positions)
             base = rng.choice(ops[i][1])
             pat = rng.choice([_re.escape(base) + r"(\..*)?$", _re.escape(base.split(".")[0]) + r"\..*", _re.escape(base[: max(1, len(base) - 1)]) + ".*"])
+            if rng.random() < 0.35:
+                # shapes that match a package but not what lies below it without ending in `$` (\Z, `$` inside a group, look-ahead)
+                pat = rng.choice([_re.escape(base) + r"\Z", "(" + _re.escape(base) + "$)|(zz_none$)", "(?!" + _re.escape(base) + r"\.)" + _re.escape(base), gen.odd_regex(rng, nodes)])
             ops[i] = ("match", pat)
             tab = [(pat, [m for m in nodes if _re.match(pat, m)])]
             matched = set(tab[0][1])
